@@ -58,7 +58,17 @@ def dup(prefix, n):
     return Tpl('%s{{1..%d},1}' % (prefix, n - 1), n, n - 1)
 
 
-MAKERS = [rng, product, split, dup]
+def pipe_in_brace(prefix, n):
+    """A `|` inside ONE brace alternative: braces are expanded first, so `{pa|pb,p{1..k}}` is the k + 1 texts `pa|pb`, `p1`..`pk`,
+    i.e. k + 2 patterns after splitting - the `|` does not multiply the other alternatives."""
+    if n < 3 or n > 400:
+        return rng(prefix, n)
+    t = Tpl('{%sa|%sb,%s{1..%d}}' % (prefix, prefix, prefix, n - 2), n, n)
+    t.pipe_in_brace = True
+    return t
+
+
+MAKERS = [rng, product, split, dup, pipe_in_brace]
 
 
 def decompositions(n):
@@ -202,8 +212,10 @@ def run_case(eps, ename, incs, excs, inline, L, out, armed, explicit=True):
         allt = incs + excs
         braced = [t for t in allt if '{' in t.text]
         pieces = sum(t.text.count('|') + 1 for t in allt)
-        if len(braced) > 1:
+        if len(braced) > 1 or (any(getattr(t, 'pipe_in_brace', False) for t in allt) and len(allt) > 1):
             v = 'EITHER'
+        elif braced and getattr(braced[0], 'pipe_in_brace', False):
+            pass          # a single template: T and U are as computed
         elif braced:
             b = braced[0]
             T = b.T * pieces
